@@ -446,7 +446,21 @@ func contentFrom(v, src ssa.Value, at ssa.Instruction) bool {
 				}
 			}
 		}
+	case *ssa.Phi:
+		// every path carries the bytes
+		for _, e := range x.Edges {
+			if e != ssa.Value(x) && !contentFrom(e, src, at) {
+				return false
+			}
+		}
+		return len(x.Edges) > 0
 	case *ssa.MakeSlice, *ssa.Alloc:
+		// a destination of length zero receives nothing from copy (make([]byte, 0, n) has room, not length)
+		if ms, ok := v.(*ssa.MakeSlice); ok {
+			if k, isK := constInt(ms.Len); isK && k == 0 {
+				return false
+			}
+		}
 		// copy(v[..], src) that dominates `at`
 		found := false
 		walkUses(v, 3, func(in ssa.Instruction) {
@@ -471,6 +485,39 @@ func checkSessionIDForwarded(c *Ctx, r *Run, rule string) {
 	if ns == nil {
 		r.Unresolved(rule, "internal/round.NewSession")
 		return
+	}
+	// the handler constructors hand the identifier on to the start function
+	for _, cn := range []string{"NewMultiHandler", "NewTwoPartyHandler"} {
+		fn := c.LookupFunc("pkg/protocol", cn)
+		if fn == nil {
+			r.Unresolved(rule, "pkg/protocol."+cn)
+			continue
+		}
+		var sid ssa.Value
+		for _, p := range fn.Params {
+			if sl, ok := p.Type().Underlying().(*types.Slice); ok {
+				if b, isB := sl.Elem().Underlying().(*types.Basic); isB && b.Kind() == types.Byte {
+					sid = p
+				}
+			}
+		}
+		if sid == nil {
+			r.Unresolved(rule, "pkg/protocol."+cn+" session id parameter")
+			continue
+		}
+		allInstrs(fn, func(in ssa.Instruction) {
+			call, ok := in.(*ssa.Call)
+			if !ok || call.Call.IsInvoke() || call.Call.StaticCallee() != nil || len(call.Call.Args) != 1 {
+				return
+			}
+			if _, isP := call.Call.Value.(*ssa.Parameter); !isP {
+				return
+			}
+			r.Analysed(c.FuncName(fn))
+			ok2 := contentFrom(call.Call.Args[0], sid, call)
+			r.Check(rule, c.FuncName(fn)+"|session id handed to the start function", c.Pos(call.Pos()), ok2, "the start function receives the caller's session identifier (its bytes)",
+				"the start function receives "+path(call.Call.Args[0])+", which does not carry the bytes of the constructor's sessionID parameter on every path (a copy into a zero-length buffer copies nothing): sessions started with different identifiers share tag, transcript and derived nonces")
+		})
 	}
 	for _, sf := range startFuncs(c) {
 		if sf.Parent() == nil || len(sf.Params) != 1 {
